@@ -120,6 +120,7 @@ func checkC17(tier string) *Report {
 		w0.OpRecv("T(internal,ch1)", TransferSpec{"channel-1", denomUSDC, "500", orb, w0.FwdInternal(w0.Bob), nil}.Pkt()),
 		w0.OpRecv("T(refused)", TransferSpec{"channel-0", denomUSDC, "2000000", orb, w0.FwdCCTP(0), nil}.Pkt()),
 		OpEnv("seed-stats-top"), w0.OpDeposit(w0.Orb, denomUSDC, 5),
+		OpEnv("bulk-pause-150"), OpEnv("bulk-stats-130"), // collections larger than one default query page (100 entries)
 	}
 	depth := 2
 	if full {
